@@ -3,9 +3,12 @@
    identifies the op that caused it). */
 #include "hcommon.h"
 #include <signal.h>
+#include <pthread.h>
 
 extern void debug_init(char *ident);
 extern void h_debug_quiet(void);
+extern void sslinit(void);
+extern pthread_attr_t pthread_attr;
 extern void h_debug_level_raw(uint8_t l);
 extern void debug_set_level(uint8_t level);
 extern int debug_set_destination(char *dest, int log_type);
@@ -17,6 +20,8 @@ int main(int argc, char **argv) {
     debug_init("rspharness");
     h_debug_quiet();
     h_debug_level_raw(128);
+    sslinit();
+    pthread_attr_init(&pthread_attr);
     if (getenv("RSPH_LOG"))
         debug_set_destination(getenv("RSPH_LOG"), 0);
     while (fgets(line, sizeof(line), stdin)) {
